@@ -3,6 +3,7 @@ package main
 // gse: bounded symbolic execution of real Go code (go/ssa -> SMT-LIB2 -> z3).
 
 import (
+	"sync/atomic"
 	"encoding/json"
 	"flag"
 	"fmt"
@@ -38,6 +39,7 @@ type Config struct {
 	PermuteMaps   int
 	SortMaps      bool
 	ChanAnyOrder  bool
+	CleanSamples  int
 	AllowInitFail map[string]bool
 	Out           string
 	Seed          int64
@@ -65,6 +67,7 @@ type HarnessResult struct {
 	Covers       []string          `json:"covers"`
 	Functions    []string          `json:"functions_encoded"`
 	Samples      []string          `json:"samples"`
+	CleanReplays [][]ReplayRec     `json:"clean_replays"`
 	MaxDepth     int               `json:"max_decisions_on_a_path"`
 	Steps        int64             `json:"ssa_instructions_executed"`
 	Params       map[string]int    `json:"params"`
@@ -102,6 +105,7 @@ func main() {
 	flag.IntVar(&cfg.MaxConcretize, "maxconc", 64, "max elements for concretising a symbolic index")
 	flag.IntVar(&cfg.PermuteMaps, "permute", 0, "permute iteration order of maps up to this size")
 	flag.BoolVar(&cfg.ChanAnyOrder, "chanany", false, "receive any queued channel element")
+	flag.IntVar(&cfg.CleanSamples, "cleansamples", 0, "emit replay data for this many passing paths per harness")
 	flag.StringVar(&allowInit, "allowinitfail", "", "comma-separated repo packages whose init may be incomplete")
 	flag.StringVar(&cfg.Out, "out", "", "result JSON path")
 	flag.Int64Var(&cfg.Seed, "seed", 0, "seed (exploration order only)")
@@ -393,6 +397,7 @@ func runHarness(sh *Shared, fn *ssa.Function) *HarnessResult {
 	funcs := map[string]bool{}
 	inconcl := map[string]int{}
 	violTags := map[string]bool{}
+	cleanWanted := int32(cfg.CleanSamples)
 	var wg sync.WaitGroup
 	for w := 0; w < cfg.Workers; w++ {
 		wg.Add(1)
@@ -426,8 +431,14 @@ func runHarness(sh *Shared, fn *ssa.Function) *HarnessResult {
 					sol, _ = NewSolver(tb, cfg.TimeoutMs, "")
 					in.tb, in.sol = tb, sol
 				}
+				in.wantClean = &cleanWanted
 				kind, msg, viol := in.runPath(fn, prefix)
+				cleanReplay := in.cleanReplay
+				in.cleanReplay = nil
 				mu.Lock()
+				if cleanReplay != nil {
+					res.CleanReplays = append(res.CleanReplays, cleanReplay)
+				}
 				res.PathsDone++
 				if len(in.trace) > res.MaxDepth {
 					res.MaxDepth = len(in.trace)
@@ -565,6 +576,14 @@ func (in *Interp) runPath(fn *ssa.Function, prefix []int) (kind, msg string, vio
 			}
 		}()
 		if r == nil {
+			// a passing path: keep a witness (before the solver scope is popped) when the scheduler wants one
+			if in.wantClean != nil && len(in.pathViol) == 0 && len(in.covers) > 0 && atomic.LoadInt32(in.wantClean) > 0 {
+				if atomic.AddInt32(in.wantClean, -1) >= 0 {
+					if m, sr := in.modelWithRecover(); sr == "sat" {
+						in.cleanReplay = in.mkReplay(m)
+					}
+				}
+			}
 			return
 		}
 		switch r := r.(type) {
